@@ -109,7 +109,7 @@ Definition kf_same_id_writes (clients : list (list json)) : bool :=
                      is_write_op a && is_write_op b && String.eqb (jfS "id" a) (jfS "id" b) &&
                      String.eqb (jfS "loc" a) (jfS "loc" b) && overlap a b) (cross_pairs clients).
 
-(** D46: an event overlapping with a rule write (the rule cache is read and written without the state lock) *)
+(** (was D46, fixed) an event overlapping with a rule write (the rule cache is read and written without the state lock) *)
 Definition kf_event_vs_rule_write (clients : list (list json)) : bool :=
   existsb (fun ab => let '(a, b) := ab in
                      let ev x := String.eqb (jfS "op" x) "event" in
@@ -121,8 +121,8 @@ Definition check_conc (c : json) : json :=
   let sy0 := init_system (jfL "locs" c) in
   let clients := map jL (jfL "clients" c) in
   let crashed := jfS "crashed" c in
-  let kfs := ((if kf_same_id_writes clients then ["D44"] else []) ++
-              (if kf_event_vs_rule_write clients then ["D46"] else []))%list in
+  (* D46 (rule cache) is repaired in /repo: its predicate explains nothing any more, only the feature is kept *)
+  let kfs := (if kf_same_id_writes clients then ["D44"] else []) in
   let feats := ((if kf_same_id_writes clients then ["overlapping-writes-same-id"] else []) ++
                 (if kf_event_vs_rule_write clients then ["event-overlaps-rule-write"] else []) ++
                 (if existsb (fun ab => overlap (fst ab) (snd ab)) (cross_pairs clients) then ["overlap"] else ["no-overlap"]))%list in
@@ -131,7 +131,7 @@ Definition check_conc (c : json) : json :=
           ("why", JStr (String.append "the process did not survive the concurrent history: " crashed));
           ("model", JNull); ("spec_ok", JBool false);
           ("spec_why", JStr (String.append "crash or deadlock under concurrent requests: " crashed));
-          ("spec_op", JStr "no-crash"); ("kf", jstrs_of (if kf_event_vs_rule_write clients then ["D46"] else []));
+          ("spec_op", JStr "no-crash"); ("kf", JArr []);
           ("features", jstrs_of ("crashed" :: feats)); ("nontrivial", JBool true); ("ambiguous", JNum 0)]
   else
   match replay_all sy0 (jfL "setup" c) with
